@@ -25,7 +25,7 @@ TECHNIQUE = "stateful property-based testing (Hypothesis RuleBasedStateMachine) 
 RULE = (
     "Each example = (driver in the six MC drivers, 1-3 bare user move/criteria pairs, optional shipped ExchangeMove (GrandCanonical) or CellMove "
     "(Isobaric/Isotension) entry) + up to N rules: trial of a user entry with a scripted result from {True,1,'x',[0],False,0,None,'',[]} and scripted verdict, "
-    "trial of the shipped entry with scripted verdict, serialisation round-trip. Non-trivial = at least one accepted exchange or cell trial happened while a bare "
+    "trial of the shipped entry (random strain or exactly volume-preserving shear) with scripted verdict, replacement of a user move under its existing name, serialisation round-trip; user moves compare equal by value. Non-trivial = at least one accepted exchange or cell trial happened while a bare "
     "move was in the table and both a truthy and a falsy user result occurred; distinct = (driver, table, result kinds, verdict string prefix)."
 )
 ASSUMPTIONS = [
